@@ -21,6 +21,7 @@ from rules.c09 import lin_of, _only_def_is
 from dtable import instrumented_body, resolve_upvars
 import e1
 
+THOROUGH_CONFIGS = ("release", "arbitrary")
 LEVEL = "other"
 M_ = "stun_types::message::"
 KEYFN = M_ + "MessageIntegrityCredentials::make_hmac_key"
